@@ -350,9 +350,13 @@ impl ActorCell {
             }
             #[cfg(feature = "verif")]
             crate::verif::point("status.unreg_name");
-            // If it's enrolled in the registry, remove it
+            // If it's enrolled in the registry, remove it. Remote actors carry the
+            // name of the actor they stand for but never appear in the name registry
+            // (see `new_remote`), so only a local cell owns the entry stored under its name.
             if let Some(name) = self.get_name() {
-                crate::registry::unregister(name);
+                if self.get_id().is_local() {
+                    crate::registry::unregister(name);
+                }
             }
             #[cfg(feature = "verif")]
             crate::verif::point("status.pg_demonitor");
